@@ -23,7 +23,7 @@ EXTENDS Integers, Sequences, FiniteSets
 (* s.ct = ms to wait for the delivery confirmation (both read from the tree by the harness)               *)
 
 NewReq(kind, dst, t) == [kind |-> kind, dst |-> dst, tag |-> 0 - 1, st |-> "started", enq |-> 0, lastEnq |-> "none",
-                         tEnq |-> t, tAcc |-> 0 - 1, okConf |-> FALSE, badConf |-> FALSE, t0 |-> t, su |-> FALSE]
+                         tEnq |-> t, tAcc |-> 0 - 1, okConf |-> FALSE, badConf |-> FALSE, t0 |-> t, su |-> FALSE, canc |-> FALSE]
 (* s.n counts the set-up and enqueue commands the NCP has seen; s.last[x] = number of the last one that concerned target x *)
 Touch(s, x) == [s EXCEPT !.n = s.n + 1,
                          !.last = [y \in (DOMAIN s.last) \cup {x} |-> IF y = x THEN s.n + 1 ELSE s.last[y]]]
@@ -71,7 +71,10 @@ Confirm(s, dst, tag, ok, t) ==
         THEN [s.reqs[r] EXCEPT !.okConf = @ \/ (ok /\ ~s.reqs[r].badConf), !.badConf = @ \/ (~ok /\ ~s.reqs[r].okConf)]
         ELSE s.reqs[r]]]
 
-(* send_packet ends with outcome o: "ok" | "DeliveryError" | "TimeoutError" *)
+(* the caller of request r is cancelled (an outcome like any other: the request ends, nothing of it may remain) *)
+CancelReq(s, r) == IF Has(s, r) /\ s.reqs[r].st # "finished" THEN Put(s, r, [s.reqs[r] EXCEPT !.canc = TRUE]) ELSE s
+
+(* send_packet ends with outcome o: "ok" | "DeliveryError" | "TimeoutError" | "CancelledError" (only if its caller was cancelled) *)
 FinishOk(s, r, o, t) ==
     /\ Has(s, r) /\ s.reqs[r].st # "finished"
     /\ LET q == s.reqs[r] IN
@@ -85,6 +88,7 @@ FinishOk(s, r, o, t) ==
          [] o = "TimeoutError" ->
               /\ q.st = "enqueued" /\ q.kind = "unicast" /\ ~q.okConf /\ ~q.badConf
               /\ t = q.tAcc + s.ct                                  \* no confirmation within the timeout
+         [] o = "CancelledError" -> q.canc
          [] OTHER -> FALSE
 Finish(s, r) == Put(s, r, [s.reqs[r] EXCEPT !.st = "finished"])
 
